@@ -51,9 +51,9 @@ def setup(ctx):
     from gaddlemaps import Manager
     for f in (A.remove_hydrogens, A.guess_protein_restrains, A.guess_residue_restrains, A._split_list):
         _cov.watch(f)
-    _cov.watch(A.Alignment.__dict__['align_molecules'], 'Alignment.align_molecules')
+    _cov.watch_attr(A.Alignment, 'align_molecules', 'Alignment.align_molecules')
     for name in ('align_molecules', 'parse_restrictions', '_validate_index', '_parse_deformations', '_parse_ignore_hydrogens'):
-        _cov.watch(Manager.__dict__[name], f'Manager.{name}')
+        _cov.watch_attr(Manager, name, f'Manager.{name}')
     _cov.start()
     _tmp['dir'] = tempfile.mkdtemp(prefix='gmv_c10_')
 
